@@ -15,7 +15,7 @@ Model driver for C15 (strings). Stateful line protocol (one request → one resp
     trailing (G …) lists give the grapheme-cluster byte lengths of the strings whose segmentation
     the operation may consult (the harness computes them with unicode-segmentation).
 
-  ops: apiwb D hi | fmtf <xopts> f<bits> (float value: never compared, answer `F`) | idx D lo hi | rng D lo hi | unpx D | unph D k | unpt D k | chars D | rchars D | cidx D | bytes D | lines D
+  ops: apiwb D hi | apisp D hi | fmtf <xopts> f<bits> (float value: never compared, answer `F`) | idx D lo hi | rng D lo hi | unpx D | unph D k | unpt D k | chars D | rchars D | cidx D | bytes D | lines D
        | trim D | trimp D <xpat> | pat D <xpat> | replace D <xpat> <xto> | repeat D n | case D
        | tonum <xhex> | tonumb <xhex> base | lit <xhex> | fparse <xhex> | fmt <xopts> <val>
   Responses: canonical values `s<xhex> | null | b0 | b1 | i<n> | F | (r a b 0) | (t …)`,
@@ -44,6 +44,10 @@ structure DSt where
   fix8 : Bool := false
   fix9 : Bool := false
   fix10 : Bool := false
+  fix11 : Bool := false
+  fix12 : Bool := false
+  fix13 : Bool := false
+  fix14 : Bool := false
 
 structure SegTab where
   s : Bytes
@@ -193,6 +197,19 @@ def handleOp (st : DSt) (line : String) : String :=
          | some t => "s" ++ hexOfBytes t.bytes
          | none => "none")
      | _, _ => "bad-request")
+  | ["apisp", d, hi] =>
+    -- the public `StringSlice::<usize>::split(off)` for all 0 ≤ off ≤ hi; beyond the own end only the
+    -- first half is looked at (the second has start > end)
+    (match parseDesc d, hi.toNat? with
+     | some s, some hi =>
+       let s : KStr := { s with form := .large }
+       spaced ((List.range (hi + 1)).map fun off =>
+         match s.splitAtApi off st.fix12 with
+         | some (p, r) =>
+           if off ≤ s.len then "(" ++ hexOfBytes p.bytes ++ " " ++ hexOfBytes r.bytes ++ ")"
+           else "(" ++ hexOfBytes p.bytes ++ " !)"
+         | none => "none")
+     | _, _ => "bad-request")
   | ["fmtf", _, _] => "F"
   | ["chars", d] =>
     (match parseDesc d with
@@ -256,7 +273,7 @@ def handleOp (st : DSt) (line : String) : String :=
      | _, _, _ => "bad-request")
   | ["repeat", d, n] =>
     (match parseDesc d, n.toInt? with
-     | some s, some n => resStr (repeatOp s n)
+     | some s, some n => resStr (repeatOp s n st.fix11)
      | _, _ => "bad-request")
   | ["case", d] =>
     (match parseDesc d with
@@ -273,7 +290,7 @@ def handleOp (st : DSt) (line : String) : String :=
   | ["lit", h] =>
     (match bytesOfHex h with
      | some b =>
-       (match unescape U b st.fix3 with
+       (match unescape U b { overflow := st.fix3, digits := st.fix13 } with
         | .ok r => "s" ++ hexOfBytes r
         | .error e => if e.startsWith "PANIC" then e else "E:" ++ e)
      | none => "bad-request")
@@ -287,7 +304,7 @@ def handleOp (st : DSt) (line : String) : String :=
   | ["fmt", h, v] =>
     (match bytesOfHex h, parseFVal v with
      | some b, some v =>
-       (match format U.gFirst b v st.fix2 st.fix8 with
+       (match format U.gFirst b v st.fix2 st.fix8 st.fix14 with
         | .ok r => "s" ++ hexOfBytes r
         | .error e => pErrStr e)
      | _, _ => "bad-request")
@@ -310,7 +327,9 @@ def step (st : DSt) (line : String) : DSt × String :=
     let ids := line.splitOn " "
     ({ st with fix1 := st.fix1 || ids.contains "F-C15-1", fix2 := st.fix2 || ids.contains "F-C15-2",
                fix3 := st.fix3 || ids.contains "F-C15-3", fix6 := st.fix6 || ids.contains "F-C15-6", fix8 := st.fix8 || ids.contains "F-C15-8",
-               fix9 := st.fix9 || ids.contains "F-C15-9", fix10 := st.fix10 || ids.contains "F-C15-10" }, "ok")
+               fix9 := st.fix9 || ids.contains "F-C15-9", fix10 := st.fix10 || ids.contains "F-C15-10", fix11 := st.fix11 || ids.contains "F-C15-11",
+               fix12 := st.fix12 || ids.contains "F-C15-12", fix13 := st.fix13 || ids.contains "F-C15-13",
+               fix14 := st.fix14 || ids.contains "F-C15-14" }, "ok")
   else (st, handleOp st line)
 
 def main : IO Unit := Proto.serveSt ({} : DSt) step
